@@ -56,6 +56,7 @@ type vfSideShadow struct {
 	nARwnd      int
 	maxSackCumSeen uint32
 	admitCwnd   map[uint32]uint32
+	admitLim    map[uint32]uint32 // peer's advertised window in effect at admission (max of the last two delivered SACKs)
 	admitProbe  map[uint32]bool
 	abortSeen   bool
 }
@@ -72,7 +73,7 @@ type vfMonCfg struct {
 func vfNewShadow(side int) *vfSideShadow {
 	return &vfSideShadow{
 		side: side, tx: map[uint32]*vfTxInfo{}, got: map[uint32]bool{}, acked: map[uint32]bool{},
-		admitCwnd: map[uint32]uint32{}, admitProbe: map[uint32]bool{},
+		admitCwnd: map[uint32]uint32{}, admitProbe: map[uint32]bool{}, admitLim: map[uint32]uint32{},
 	}
 }
 
@@ -160,6 +161,13 @@ func (s *vfSim) runMonitors(mc vfMonCfg) *vfMonOut {
 					res.violate("C10", "admit/rwnd", "side %d: admitted %d bytes with rwnd %d", h.Side, h.Len, sn.RWND)
 				}
 				sh.admitCwnd[sn.NextTSN] = sn.CWND
+				if sh.nARwnd > 0 {
+					lim := sh.lastARwnd[0]
+					if sh.nARwnd > 1 && sh.lastARwnd[1] > lim {
+						lim = sh.lastARwnd[1]
+					}
+					sh.admitLim[sn.NextTSN] = lim
+				}
 				if uint32(sn.InflightB)+uint32(h.Len)+uint32(mtu(h.Side)) > sn.CWND { //nolint:gosec
 					res.seen("cwnd-limited")
 				}
@@ -324,11 +332,9 @@ func (s *vfSim) runMonitors(mc vfMonCfg) *vfMonOut {
 						} else {
 							res.violate("C10", "wire/no-admission", "side %d: TSN %d appeared on the wire without an admission decision", side, c.TSN)
 						}
-						if !sh.admitProbe[c.TSN] && sh.nARwnd > 0 {
-							lim := sh.lastARwnd[0]
-							if sh.nARwnd > 1 && sh.lastARwnd[1] > lim {
-								lim = sh.lastARwnd[1]
-							}
+						// the window that counts is the one in effect when the chunk was admitted: between the
+						// admission (under the lock) and the write to the transport further SACKs may be delivered
+						if lim, ok := sh.admitLim[c.TSN]; ok && !sh.admitProbe[c.TSN] {
 							if uint32(sh.outstanding) > lim { //nolint:gosec
 								res.violate("C10", "wire/outstanding-arwnd", "side %d: after first transmission of TSN %d the wire shows %d unacknowledged bytes > peer's advertised window %d", side, c.TSN, sh.outstanding, lim)
 							}
